@@ -466,6 +466,71 @@ func reencode(kind string, data []byte) ([]byte, error) {
 	}
 }
 
+// one message object used for two messages in a row: the second outcome must be that of a fresh object
+func reuseSeq(kind string, f fkey, a, b, extA, extB []byte) (payload []byte, err error) {
+	switch kind {
+	case "KSign1":
+		m := &cose.Sign1Message[[]byte]{}
+		if m.UnmarshalCBOR(a) == nil {
+			m.Verify(f, extA)
+		}
+		if err = m.UnmarshalCBOR(b); err == nil {
+			err = m.Verify(f, extB)
+		}
+		return m.Payload, err
+	case "KMac0":
+		m := &cose.Mac0Message[[]byte]{}
+		if m.UnmarshalCBOR(a) == nil {
+			m.Verify(f, extA)
+		}
+		if err = m.UnmarshalCBOR(b); err == nil {
+			err = m.Verify(f, extB)
+		}
+		return m.Payload, err
+	case "KMac":
+		m := &cose.MacMessage[[]byte]{}
+		if m.UnmarshalCBOR(a) == nil {
+			m.Verify(f, extA)
+		}
+		if err = m.UnmarshalCBOR(b); err == nil {
+			err = m.Verify(f, extB)
+		}
+		return m.Payload, err
+	case "KEnc0":
+		m := &cose.Encrypt0Message[[]byte]{}
+		if m.UnmarshalCBOR(a) == nil {
+			m.Decrypt(f, extA)
+		}
+		if err = m.UnmarshalCBOR(b); err == nil {
+			err = m.Decrypt(f, extB)
+		}
+		return m.Payload, err
+	case "KEnc":
+		m := &cose.EncryptMessage[[]byte]{}
+		if m.UnmarshalCBOR(a) == nil {
+			m.Decrypt(f, extA)
+		}
+		if err = m.UnmarshalCBOR(b); err == nil {
+			err = m.Decrypt(f, extB)
+		}
+		return m.Payload, err
+	default:
+		m := &cose.SignMessage[[]byte]{}
+		vs := key.Verifiers{f}
+		if m.UnmarshalCBOR(a) == nil {
+			m.Verify(vs, extA)
+		}
+		if err = m.UnmarshalCBOR(b); err == nil {
+			err = m.Verify(vs, extB)
+		}
+		return m.Payload, err
+	}
+}
+
+func freshSeq(kind string, f fkey, b, extB []byte) (payload []byte, err error) {
+	return reuseSeq(kind, f, []byte{0xff}, b, nil, extB)
+}
+
 func optOut(b []byte, err error) string {
 	if err != nil {
 		return "None"
@@ -544,7 +609,7 @@ func mutate(c *ctx, data []byte) ([]byte, string) {
 }
 
 // a foreign but valid encoding of a message: fields written with non-shortest heads, unsorted maps
-func foreignMessage(c *ctx, kind string, f fkey, ext []byte) ([]byte, string) {
+func foreignMessage(c *ctx, kind string, f fkey, ext []byte, typedBad bool) ([]byte, string) {
 	enc := func(it *citem) []byte { return it.enc(nil) }
 	bstr := func(b []byte) *citem {
 		return &citem{kind: 2, b: b, width: pick(c.r, []int{0, 0, 1, 2, 4, 8})}
@@ -578,6 +643,11 @@ func foreignMessage(c *ctx, kind string, f fkey, ext []byte) ([]byte, string) {
 		um.m = append(um.m, [2]*citem{{kind: 0, n: 4}, bstr(kid)})
 	}
 	payload := c.r.bytes(c.r.intn(30))
+	if typedBad {
+		// a typed payload whose own encoding is not strict CBOR: duplicate keys (also nested, also 01 vs 1801), indefinite length
+		payload = pick(c.r, [][]byte{{0xa2, 0x01, 0x02, 0x01, 0x03}, {0xa2, 0x01, 0x02, 0x18, 0x01, 0x03}, {0x81, 0xa2, 0x61, 0x61, 0x01, 0x61, 0x61, 0x02},
+			{0x9f, 0x01, 0xff}, {0xbf, 0x01, 0x02, 0xff}, {0x5f, 0x41, 0x00, 0xff}, {0xa1, 0x01, 0x9f, 0xff}, {0xa1, 0x01, 0x02, 0x00}, {0xa1, 0x01, 0xa2, 0x02, 0x00, 0x02, 0x01}})
+	}
 	ctx := map[string]string{"KSign1": "Signature1", "KMac0": "MAC0", "KMac": "MAC", "KEnc0": "Encrypt0", "KEnc": "Encrypt"}[kind]
 	e := ext
 	if e == nil {
@@ -620,6 +690,32 @@ func foreignMessage(c *ctx, kind string, f fkey, ext []byte) ([]byte, string) {
 	}
 }
 
+func consumeCase(c *ctx, kind string, f fkey, data, ext []byte, extT, tag string, ptype string) {
+	var term string
+	var err error
+	line := short(fmt.Sprintf("consume|%s|%s|%s|key=%s|ext=%x|%x", kind, tag, ptype, describe(f.k), ext, data))
+	p, pm := catch(func() {
+		switch ptype {
+		case "any":
+			term, err = consume1[any](kind, f, data, ext)
+		case "raw":
+			term, err = consume1[cbor.RawMessage](kind, f, data, ext)
+		default:
+			term, err = consume1[[]byte](kind, f, data, ext)
+		}
+	})
+	if p {
+		c.fail(failure{Op: "consume", What: "panic while consuming a message", Input: line, Observed: "panic: " + pm, Expected: "value or error", Case: line})
+		return
+	}
+	c.addCase(fmt.Sprintf("MCons %s %s %s %s %s %s", kind, qB(ptype == "any"), f.coq(), qHex(data), extT, term), line+fmt.Sprintf(" => ok=%v", err == nil))
+	if err != nil {
+		checkNoPlaintext(c, kind, f, data, ext, line)
+	}
+	c.nontriv(fmt.Sprintf("consume|%s|%s|%v", kind, tag, err == nil))
+	c.count(fmt.Sprintf("consume %s %s ok=%v", kind, tag, err == nil))
+}
+
 func streamMsg(c *ctx) {
 	c.beginCases("From Cose Require Import Lib.Cbor Model.GoVal Model.Key Model.Msg Model.MsgWireCorr.", "msg_case", "check_msg_case")
 	c.maxCases = 120
@@ -627,29 +723,7 @@ func streamMsg(c *ctx) {
 	defer func() { rand.Reader = saved }()
 	var pool [][]byte // produced encodings, for splices
 	consumeAll := func(kind string, f fkey, data, ext []byte, extT, tag string, ptype string) {
-		var term string
-		var err error
-		line := short(fmt.Sprintf("consume|%s|%s|%s|key=%s|ext=%x|%x", kind, tag, ptype, describe(f.k), ext, data))
-		p, pm := catch(func() {
-			switch ptype {
-			case "any":
-				term, err = consume1[any](kind, f, data, ext)
-			case "raw":
-				term, err = consume1[cbor.RawMessage](kind, f, data, ext)
-			default:
-				term, err = consume1[[]byte](kind, f, data, ext)
-			}
-		})
-		if p {
-			c.fail(failure{Op: "consume", What: "panic while consuming a message", Input: line, Observed: "panic: " + pm, Expected: "value or error", Case: line})
-			return
-		}
-		c.addCase(fmt.Sprintf("MCons %s %s %s %s %s %s", kind, qB(ptype == "any"), f.coq(), qHex(data), extT, term), line+fmt.Sprintf(" => ok=%v", err == nil))
-		if err != nil {
-			checkNoPlaintext(c, kind, f, data, ext, line)
-		}
-		c.nontriv(fmt.Sprintf("consume|%s|%s|%v", kind, tag, err == nil))
-		c.count(fmt.Sprintf("consume %s %s ok=%v", kind, tag, err == nil))
+		consumeCase(c, kind, f, data, ext, extT, tag, ptype)
 	}
 	n := c.n(260, 4000)
 	for i := 0; i < n; i++ {
@@ -765,11 +839,40 @@ func streamMsg(c *ctx) {
 				c.addCase(fmt.Sprintf("MReenc %s %s %s", kind, qHex(m), optOut(out, rerr)), short(fmt.Sprintf("reencode|%s|%s|%x", kind, tag, m)))
 			}
 		}
+		// the same object used for this message and then for a forged / another one
+		if !f.fail {
+			e0 := ext
+			if e0 == nil {
+				e0 = []byte{}
+			}
+			var forged []byte
+			other := c.r.bytes(1 + c.r.intn(20))
+			if parts, ok := topElems(data); ok && len(parts) >= 3 && (kind == "KSign1" || kind == "KMac0" || kind == "KMac") {
+				sp := append([]cbor.RawMessage{}, parts...)
+				sp[2] = key.MustMarshalCBOR(other) // another payload under the first message's protected bucket and signature
+				forged = joinElems(sp)
+			} else {
+				forged, _ = mutate(c, data)
+			}
+			for _, second := range [][]byte{forged, data} {
+				pl1, err1 := reuseSeq(kind, f, data, second, ext, ext)
+				pl2, err2 := freshSeq(kind, f, second, ext)
+				c.eval()
+				if (err1 == nil) != (err2 == nil) || err1 == nil && !bytes.Equal(pl1, pl2) {
+					c.fail(failure{Op: "object-reuse", What: "a message object that already verified one message treats the next one differently from a fresh object", Input: line + short(fmt.Sprintf("|second=%x", second)),
+						Observed: short(fmt.Sprintf("reused: payload=%x err=%v", pl1, err1)), Expected: short(fmt.Sprintf("fresh: payload=%x err=%v", pl2, err2)), Case: line})
+				}
+			}
+		}
 		// foreign encodings that must verify, and their re-encoding
 		fk := f
 		fk.fail = false
-		fm, ftag := foreignMessage(c, kind, fk, ext)
+		fm, ftag := foreignMessage(c, kind, fk, ext, false)
 		consumeAll(kind, fk, fm, ext, extT, ftag, "bytes")
+		if c.r.intn(3) == 0 {
+			bm, btag := foreignMessage(c, kind, fk, ext, true)
+			consumeAll(kind, fk, bm, ext, extT, btag+"-payload-not-strict", "any")
+		}
 		out, rerr := reencode(kind, fm)
 		c.addCase(fmt.Sprintf("MReenc %s %s %s", kind, qHex(fm), optOut(out, rerr)), short(fmt.Sprintf("reencode|%s|%s|%x", kind, ftag, fm)))
 		if rerr == nil {
@@ -946,10 +1049,18 @@ func qKdf(k cose.KDFContext) string {
 		qU(uint64(k.SuppPubInfo.KeyDataLength)), qOptMap(k.SuppPubInfo.Protected), qOptB(k.SuppPubInfo.Other), qOptB(k.SuppPrivInfo))
 }
 
-
 // probes for the member-type and nested-label rules of C08 (findings F16, F17 are reported from here)
 func streamC08Probe(c *ctx) {
 	c.beginCases("From Cose Require Import Lib.Cbor Model.GoVal Model.Key Model.Msg Model.MsgWireCorr.", "msg_case", "check_msg_case")
+	// typed payloads whose own encoding is not strict CBOR, in every message kind
+	for rep := 0; rep < c.n(6, 40); rep++ {
+		for _, kind := range kindNames {
+			f := genFkey(c, pick(c.r, []int{0, 1, 5}))
+			f.fail = false
+			d, tag := foreignMessage(c, kind, f, nil, true)
+			consumeCase(c, kind, f, d, nil, "None", tag+"-payload-not-strict", "any")
+		}
+	}
 	for i := 0; i < 12; i++ {
 		// a nested map value holding one label under two Go integer types (finding F17)
 		if i == 0 {
@@ -1139,5 +1250,15 @@ func streamMsgParts(c *ctx) {
 			bad.m = [][2]*citem{{{kind: 0, n: 1<<31 - 1}, {kind: 0, n: 1}}, {{kind: 1, n: 1<<31 - 1}, {kind: 3, b: []byte("ok")}}}
 		}
 		hdec(bad.enc(nil), "labels")
+		// unsigned labels at the top of the 64-bit range must not wrap into the negative 32-bit labels
+		big := pick(c.r, []uint64{1<<64 - 1, 1<<64 - 1<<31, 1 << 63, 1<<63 - 1, 1<<64 - 1<<31 - 1, 1 << 32, 1<<32 + 5})
+		wrap := &citem{kind: 5, m: [][2]*citem{{{kind: 0, n: big}, {kind: 0, n: 1}}}}
+		if c.r.bool() {
+			wrap.m = append(wrap.m, [2]*citem{{kind: 1, n: 0}, {kind: 0, n: 2}})
+		}
+		hdec(wrap.enc(nil), "labels-64bit")
+		if c.r.intn(3) == 0 {
+			hdec((&citem{kind: 5, m: [][2]*citem{{{kind: 0, n: 9}, wrap}}}).enc(nil), "labels-64bit-nested")
+		}
 	}
 }
